@@ -14,7 +14,9 @@ Record st_ok (s : state) : Prop := {
   ok_objs : objs_ok (objs s);
   ok_fs : ovf (st s) = false -> fsize (st s) <= next (al (st s));
   ok_sb : ovf (st s) = false -> sb_size (sbv s) <= next (al (st s));
-  ok_closed : closed s = true -> ovf (st s) = false -> next (al (st s)) <= fsize (st s)
+  ok_closed : closed s = true -> ovf (st s) = false -> next (al (st s)) <= fsize (st s);
+  ok_super : In (mkExt 0 (sb_size (sbv s)) 0 KSuper) (exts (st s));
+  ok_sbeof : closed s = true -> next (al (st s)) <= sbeof s
 }.
 
 (* ------------------------------------------------------------------ the generic step *)
@@ -22,7 +24,7 @@ Record st_ok (s : state) : Prop := {
 Definition is_session_op (o : op) : bool := match o with OpClose | OpReopen => true | _ => false end.
 
 Definition cleared (s : state) : state :=
-  mkState (clear_log (st s)) (objs s) (opidx s) (closed s) (session s) (sbv s) (conf s).
+  mkState (clear_log (st s)) (objs s) (opidx s) (closed s) (session s) (sbv s) (conf s) (sbeof s).
 
 Lemma compile_cleared : forall s o, compile (cleared s) o = compile s o.
 Proof. reflexivity. Qed.
@@ -36,7 +38,7 @@ Lemma step_api : forall s o, is_session_op o = false ->
   (let '(cmds, ok, upd) := compile s o in
    let '(st', done) := exec (clear_log (st s)) cmds in
    let applies := match o with OpHardLink _ _ _ _ => done | _ => ok && done end in
-   (mkState st' (if applies then upd (objs s) else objs s) (opidx s + 1) (closed s) (session s) (sbv s) (conf s),
+   (mkState st' (if applies then upd (objs s) else objs s) (opidx s + 1) (closed s) (session s) (sbv s) (conf s) (sbeof s),
     ok && done)).
 Proof. intros s o H. destruct o; try discriminate; reflexivity. Qed.
 
@@ -63,15 +65,92 @@ Proof.
   - intros o' k' [].
 Qed.
 
+(* what Close does to a state (on the cleared copy used by step) *)
+Lemma do_close_spec : forall s, st_ok s ->
+  let s1 := do_close (cleared s) in
+  exts (st s1) = exts (st s) /\ ovf (st s1) = ovf (st s) /\ al (st s1) = al (st s) /\ blocks (st s1) = blocks (st s) /\
+  objs s1 = objs s /\ conf s1 = conf s /\ sbv s1 = sbv s /\ closed s1 = true /\ session s1 = session s /\
+  (ovf (st s) = false -> fsize (st s1) = next (al (st s))) /\
+  next (al (st s)) <= sbeof s1 /\ sbeof s <= sbeof s1 /\
+  (forall w, In w (wlog (st s1)) -> w = (0, sb_update_len)) /\
+  (closed s = true -> st s1 = clear_log (st s) /\ sbeof s1 = sbeof s) /\
+  (next (al (st s)) <= sbeof s -> wlog (st s1) = [] /\ sbeof s1 = sbeof s /\ fsize (st s1) = N.max (fsize (st s)) (next (al (st s))) \/ closed s = true).
+Proof.
+  intros s Hs s1. unfold s1, do_close, cleared. cbn [closed].
+  destruct (closed s) eqn:Ecl.
+  - cbn [st objs conf sbv closed session sbeof clear_log exts ovf al blocks fsize wlog].
+    repeat split; auto; try lia.
+    + intros H. pose proof (ok_closed _ Hs Ecl H). pose proof (ok_fs _ Hs H). lia.
+    + apply (ok_sbeof _ Hs Ecl).
+    + intros w [].
+  - cbn [st objs conf sbv closed session sbeof].
+    rewrite (ok_conf _ Hs). unfold close_store. cbn [c_extend_close gcfg].
+    set (st1 := if sbeof s <? next (al (clear_log (st s))) then write (clear_log (st s)) 0 sb_update_len else clear_log (st s)).
+    assert (Hf : exts st1 = exts (st s) /\ ovf st1 = ovf (st s) /\ al st1 = al (st s) /\ blocks st1 = blocks (st s)).
+    { unfold st1. destruct (sbeof s <? next (al (clear_log (st s)))).
+      - destruct (write_fields (clear_log (st s)) 0 sb_update_len) as (A & B & C & D). rewrite A, B, C, D. cbn. auto.
+      - cbn. auto. }
+    destruct Hf as (F1 & F2 & F3 & F4).
+    cbn [exts ovf al blocks fsize wlog next]. rewrite F1, F2, F3, F4.
+    repeat split; auto; try lia.
+    + intros H. pose proof (ok_fs _ Hs H). pose proof (ok_sb _ Hs H).
+      assert (fsize st1 <= next (al (st s))).
+      { unfold st1. destruct (sbeof s <? next (al (clear_log (st s)))).
+        - apply write_fsize; cbn [clear_log fsize]; [lia|]. unfold sb_update_len. unfold sb_size in *. destruct (sbv s =? 0); lia.
+        - cbn. lia. }
+      lia.
+    + cbn [clear_log al]. lia.
+    + intros w Hw. unfold st1 in Hw. destruct (sbeof s <? next (al (clear_log (st s)))).
+      * destruct (write_log _ _ _ _ Hw) as [H|[H _]]; [destruct H | exact H].
+      * destruct Hw.
+    + intros Hle. left. cbn [clear_log al] in *. unfold st1.
+      assert (E : sbeof s <? next (al (st s)) = false) by (apply N.ltb_ge; exact Hle).
+      rewrite E. cbn [clear_log wlog fsize]. repeat split; auto. lia.
+Qed.
+
 Lemma step_objs_ok : forall s o, st_ok s -> objs_ok (objs (fst (step s o))).
 Proof.
   intros s o Hs. destruct (is_session_op o) eqn:Eo.
-  - destruct o; try discriminate; cbn [step fst objs do_close]; destruct (closed s); cbn; apply (ok_objs _ Hs).
+  - destruct (do_close_spec s Hs) as (_ & _ & _ & _ & Ho & _).
+    destruct o; try discriminate; cbn [step fst objs]; fold (cleared s); rewrite Ho; apply (ok_objs _ Hs).
   - rewrite (step_api s o Eo).
     pose proof (compile_good _ _ s o (ok_objs _ Hs) (ok_conf _ Hs)) as G.
     destruct (compile s o) as [[cmds ok] upd]. destruct G as (_ & G & _).
     destruct (exec (clear_log (st s)) cmds) as [st' done]. cbn [fst objs].
     match goal with |- objs_ok (if ?b then _ else _) => destruct b end; [exact G | apply (ok_objs _ Hs)].
+Qed.
+
+(* extents are never removed *)
+Lemma exec_cmd_incl : forall s x s', exec_cmd s x = Some s' -> incl (exts s) (exts s').
+Proof.
+  intros s x s' E.
+  destruct x as [o k n|o k n|o k off n|o k|o k hsz|a n|o parts]; cbn [exec_cmd] in E.
+  - destruct (alloc_ext s o k n) as [[e s2]|] eqn:E2; [|discriminate]. inversion E; subst.
+    destruct (alloc_ext_spec _ _ _ _ _ _ E2) as (_ & _ & Hx & _). rewrite Hx. apply incl_tl, incl_refl.
+  - destruct (alloc_ext s o k n) as [[e s2]|] eqn:E2; [|discriminate]. inversion E; subst.
+    destruct (alloc_ext_spec _ _ _ _ _ _ E2) as (_ & _ & Hx & _).
+    destruct (write_fields s2 (start e) n) as (_ & He & _). rewrite He, Hx. apply incl_tl, incl_refl.
+  - destruct (find_ext (exts s) o k); [|discriminate]. inversion E; subst.
+    destruct (write_fields s (start e + off) n) as (_ & He & _). rewrite He. apply incl_refl.
+  - destruct (find_ext (exts s) o k); [|discriminate]. inversion E; subst.
+    destruct (write_fields s (start e) (len e)) as (_ & He & _). rewrite He. apply incl_refl.
+  - destruct (find_ext (exts s) o k); [|discriminate].
+    destruct (next (al s) <? start e + hsz).
+    + destruct (alloc_ext s o KSpill (start e + hsz - next (al s))) as [[e1 s2]|] eqn:E2; [|discriminate].
+      inversion E; subst. destruct (alloc_ext_spec _ _ _ _ _ _ E2) as (_ & _ & Hx & _). rewrite Hx. apply incl_tl, incl_refl.
+    + inversion E; subst. apply incl_refl.
+  - inversion E; subst. destruct (write_fields s a n) as (_ & He & _). rewrite He. apply incl_refl.
+  - unfold allocate in E. destruct (parts_total parts =? 0); [discriminate|]. inversion E; subst. cbn.
+    apply incl_appr, incl_refl.
+Qed.
+
+Lemma exec_incl : forall cmds s s' b, exec s cmds = (s', b) -> forall e, In e (exts s) -> In e (exts s').
+Proof.
+  induction cmds as [|x r IH]; intros s s' b E e He; cbn [exec] in E.
+  - inversion E; subst; exact He.
+  - destruct (exec_cmd s x) as [s1|] eqn:E1.
+    + eapply IH; [exact E|]. apply (exec_cmd_incl _ _ _ E1). exact He.
+    + inversion E; subst; exact He.
 Qed.
 
 (* fixed-size kinds keep their size: no overflow hypothesis needed *)
@@ -107,37 +186,33 @@ Proof.
   intros s o Hs. pose proof (step_objs_ok s o Hs) as Hobj.
   destruct (is_session_op o) eqn:Eo.
   - (* Close / Reopen *)
-    pose proof (ok_conf _ Hs) as Hc.
+    destruct (do_close_spec s Hs) as (Dx & Dov & Dal & _ & Dobj & Dconf & Dsbv & Dcl & _ & Dfs & Dsb & _ & _ & _ & _).
     destruct o; try discriminate.
     + (* Close *)
-      cbn [step fst do_close closed st objs conf sbv session] in *.
-      destruct (closed s) eqn:Ecl.
-      * constructor; cbn; try apply Hs; auto. intros _ H. apply (ok_closed _ Hs); auto.
-      * cbn [st objs conf sbv closed]. rewrite Hc. unfold close_store. cbn [c_extend_close gcfg].
-        constructor; cbn; try apply Hs; auto.
-        -- intros H. pose proof (ok_fs _ Hs H). lia.
-        -- intros _ H. lia.
+      cbn [step fst]. fold (cleared s).
+      constructor; cbn [conf st objs closed sbv sbeof].
+      * rewrite Dconf. apply (ok_conf _ Hs).
+      * unfold ext_ok. rewrite Dx, Dov, Dal. apply (ok_ext _ Hs).
+      * rewrite Dx. apply (ok_lens _ Hs).
+      * exact Hobj.
+      * rewrite Dov, Dal. intros H. rewrite (Dfs H). lia.
+      * rewrite Dov, Dal, Dsbv. apply (ok_sb _ Hs).
+      * rewrite Dov, Dal. intros _ H. rewrite (Dfs H). lia.
+      * rewrite Dx, Dsbv. apply (ok_super _ Hs).
+      * rewrite Dal. intros _. exact Dsb.
     + (* Reopen *)
-      cbn [step fst do_close closed st objs conf sbv session] in *.
-      assert (Hd : forall stc, stc = st (do_close (cleared s)) ->
-                 exts stc = exts (st s) /\ ovf stc = ovf (st s) /\
-                 (ovf (st s) = false -> next (al (st s)) <= fsize stc /\ fsize stc <= next (al (st s)))).
-      { intros stc ->. unfold do_close, cleared. cbn [closed].
-        destruct (closed s) eqn:Ecl; cbn [st].
-        - cbn. repeat split; auto. + apply (ok_closed _ Hs); auto. + apply (ok_fs _ Hs); auto.
-        - rewrite Hc. unfold close_store. cbn [c_extend_close gcfg]. cbn. repeat split; auto; try lia.
-          pose proof (ok_fs _ Hs H). lia. }
-      specialize (Hd _ eq_refl). destruct Hd as (Hx & Hov & Hf).
-      unfold cleared in *.
-      constructor; cbn [conf st objs closed sbv reopen_store exts al next fsize ovf].
-      * destruct (closed s); cbn; exact Hc.
-      * unfold ext_ok. cbn [reopen_store exts al next ovf]. rewrite Hx, Hov. intros H.
+      cbn [step fst]. fold (cleared s).
+      constructor; cbn [conf st objs closed sbv sbeof reopen_store exts al next fsize ovf].
+      * apply (ok_conf _ Hs).
+      * unfold ext_ok. cbn [reopen_store exts al next ovf]. rewrite Dx, Dov. intros H.
         destruct (ok_ext _ Hs H) as [HF HN]. split; [|exact HN].
-        eapply Forall_impl; [|exact HF]. cbn. intros a Ha. destruct (Hf H). lia.
-      * rewrite Hx. apply (ok_lens _ Hs).
-      * destruct (closed s); cbn; apply (ok_objs _ Hs).
-      * rewrite Hov. intros H. lia.
-      * rewrite Hov. intros H. destruct (closed s); cbn; lia.
+        eapply Forall_impl; [|exact HF]. cbn. intros a Ha. rewrite (Dfs H). lia.
+      * rewrite Dx. apply (ok_lens _ Hs).
+      * exact Hobj.
+      * rewrite Dov. intros H. lia.
+      * rewrite Dov. intros H. lia.
+      * discriminate.
+      * rewrite Dx. apply (ok_super _ Hs).
       * discriminate.
   - (* API call *)
     pose proof (compile_good _ _ s o (ok_objs _ Hs) (ok_conf _ Hs)) as G.
@@ -169,6 +244,12 @@ Proof.
       (* a closed writer rejects every call: the store is unchanged *)
       rewrite (step_api s o Eo) in *. rewrite (compile_closed s o Hcl) in *. cbn in *.
       apply (ok_closed _ Hs Hcl H).
+    + rewrite F2. rewrite (step_api s o Eo). destruct (compile s o) as [[cmds ok] upd].
+      destruct (exec (clear_log (st s)) cmds) as [st' done] eqn:E. cbn [fst st].
+      apply (exec_incl _ _ _ _ E). cbn [clear_log exts]. apply (ok_super _ Hs).
+    + rewrite F3. intros Hcl.
+      rewrite (step_api s o Eo) in *. rewrite (compile_closed s o Hcl) in *. cbn in *.
+      apply (ok_sbeof _ Hs Hcl).
 Qed.
 
 Theorem run_ok : forall h s, st_ok s -> st_ok (run s h).
@@ -205,18 +286,26 @@ Qed.
 
 (* ------------------------------------------------------------------ C04: writes within owned / frame *)
 
-Lemma step_session_nolog : forall s o, is_session_op o = true -> wlog (st (fst (step s o))) = [].
-Proof.
-  intros s o H. destruct o; try discriminate; cbn [step fst st do_close cleared closed];
-    destruct (closed s); cbn; try reflexivity; unfold close_store; destruct (c_extend_close (conf s)); reflexivity.
-Qed.
+(* Close / Reopen: the store of the result is the closed store (Reopen: with the allocator re-seeded) *)
+Lemma step_session_store : forall s o, is_session_op o = true ->
+  exts (st (fst (step s o))) = exts (st (do_close (cleared s))) /\
+  wlog (st (fst (step s o))) = wlog (st (do_close (cleared s))) /\
+  ovf (st (fst (step s o))) = ovf (st (do_close (cleared s))).
+Proof. intros s o H. destruct o; try discriminate; cbn [step fst st reopen_store exts wlog ovf]; fold (cleared s); auto. Qed.
 
 Theorem step_writes_legal : forall s o, st_ok s -> ovf (st (fst (step s o))) = false ->
   forall w, In w (wlog (st (fst (step s o)))) ->
   legal (targets s o) (next (al (st s))) (exts (st (fst (step s o)))) w.
 Proof.
   intros s o Hs Hov w Hw. destruct (is_session_op o) eqn:Eo.
-  - rewrite (step_session_nolog s o Eo) in Hw. destruct Hw.
+  - (* only the superblock update of Close *)
+    destruct (step_session_store s o Eo) as (Ex & Ew & _).
+    destruct (do_close_spec s Hs) as (Dx & _ & _ & _ & _ & _ & _ & _ & _ & _ & _ & _ & Dw & _).
+    rewrite Ew in Hw. rewrite Ex, Dx. rewrite (Dw w Hw).
+    exists (mkExt 0 (sb_size (sbv s)) 0 KSuper). split; [apply (ok_super _ Hs)|].
+    cbn. repeat split; try lia.
+    + unfold ext_end, sb_update_len, sb_size. cbn. destruct (sbv s =? 0); lia.
+    + left. destruct o; try discriminate; reflexivity.
   - pose proof (compile_good _ _ s o (ok_objs _ Hs) (ok_conf _ Hs)) as G.
     assert (HC : cmds_ok cfgb (targets s o) [] (fst (fst (compile s o))) = true).
     { destruct (compile s o) as [[cmds ok] upd]. destruct G as (G & _). exact G. }
@@ -232,9 +321,9 @@ Lemma step_exts_incl : forall s o, st_ok s -> ovf (st (fst (step s o))) = false 
   incl (exts (st s)) (exts (st (fst (step s o)))) /\ ovf (st s) = false.
 Proof.
   intros s o Hs Hov. destruct (is_session_op o) eqn:Eo.
-  - destruct o; try discriminate; cbn [step fst st do_close cleared closed] in *;
-      destruct (closed s); cbn in *; unfold close_store in *; destruct (c_extend_close (conf s)); cbn in *;
-        split; auto; apply incl_refl.
+  - destruct (step_session_store s o Eo) as (Ex & _ & Eo').
+    destruct (do_close_spec s Hs) as (Dx & Dov & _).
+    rewrite Ex, Dx. rewrite Eo', Dov in Hov. split; [apply incl_refl | exact Hov].
   - pose proof (compile_good _ _ s o (ok_objs _ Hs) (ok_conf _ Hs)) as G.
     assert (HC : cmds_ok cfgb (targets s o) [] (fst (fst (compile s o))) = true).
     { destruct (compile s o) as [[cmds ok] upd]. destruct G as (G & _). exact G. }
@@ -317,27 +406,33 @@ Fixpoint run_writes (s : state) (h : list op) : list (N * N) :=
   match h with [] => [] | o :: r => wlog (st (fst (step s o))) ++ run_writes (fst (step s o)) r end.
 
 Definition settled (F : N) (E : list extent) (s : state) : Prop :=
-  fsize (st s) = F /\ next (al (st s)) = F /\ exts (st s) = E /\ ovf (st s) = false /\
-  sb_size (sbv s) <= F /\ conf s = cfgb.
+  st_ok s /\ fsize (st s) = F /\ next (al (st s)) = F /\ exts (st s) = E /\ ovf (st s) = false /\ F <= sbeof s.
 
 Lemma quiet_step_settled : forall F E s o, settled F E s -> quiet_step s o ->
   settled F E (fst (step s o)) /\ wlog (st (fst (step s o))) = [].
 Proof.
-  intros F E s o (H1 & H2 & H3 & H4 & H5 & H6) Hq.
-  destruct o; cbn [quiet_step] in Hq;
-    try (match goal with |- context [step s ?o] => rewrite (step_api s o eq_refl); destruct (compile s o) as [[cmds ok] upd] end;
-         cbn [fst] in Hq; subst cmds; cbn; unfold settled; cbn; repeat split; auto; fail).
-  - (* Close *)
-    cbn [step fst]. unfold settled, do_close. cbn [closed].
-    destruct (closed s); cbn [st sbv conf closed wlog clear_log fsize al exts ovf next]; [repeat split; auto|].
-    rewrite H6. unfold close_store. cbn [c_extend_close gcfg fsize al exts ovf next wlog clear_log].
-    rewrite H1, H2. repeat split; auto. lia.
-  - (* Reopen *)
-    cbn [step fst]. unfold settled, do_close. cbn [closed].
-    destruct (closed s); cbn [st sbv conf closed wlog clear_log fsize al exts ovf next reopen_store].
-    + rewrite H1. repeat split; auto. lia.
-    + rewrite H6. unfold close_store. cbn [c_extend_close gcfg fsize al exts ovf next wlog clear_log].
-      rewrite H1, H2. repeat split; auto; lia.
+  intros F E s o (Hs & H1 & H2 & H3 & H4 & H5) Hq.
+  pose proof (step_ok s o Hs) as Hs'.
+  destruct (is_session_op o) eqn:Eo.
+  - destruct (do_close_spec s Hs) as (Dx & Dov & Dal & _ & _ & _ & Dsbv & _ & _ & Dfs & _ & _ & _ & Dcl & Dq).
+    assert (Hle : next (al (st s)) <= sbeof s) by lia.
+    assert (Hq1 : wlog (st (do_close (cleared s))) = [] /\ sbeof (do_close (cleared s)) = sbeof s /\
+                  fsize (st (do_close (cleared s))) = F).
+    { destruct (Dq Hle) as [(A & B & C)|Hc].
+      - repeat split; auto. rewrite C. lia.
+      - destruct (Dcl Hc) as [A B]. rewrite A, B. cbn. auto. }
+    destruct Hq1 as (Q1 & Q2 & Q3).
+    pose proof (ok_sb _ Hs H4) as Hsb.
+    destruct o; try discriminate; cbn [step fst] in *; fold (cleared s) in *.
+    + unfold settled. split; [split; [exact Hs'|] | cbn [st]; exact Q1].
+      cbn [st sbeof]. rewrite Dx, Dov, Dal, Q2, Q3. repeat split; auto.
+    + unfold settled. split; [split; [exact Hs'|] | cbn [st reopen_store wlog]; exact Q1].
+      cbn [st sbeof reopen_store fsize al next exts ovf wlog]. rewrite Dx, Dov, Q2, Q3.
+      repeat split; auto. lia.
+  - cbn [quiet_step] in Hq. assert (Hq' : fst (fst (compile s o)) = []) by (destruct o; try discriminate; exact Hq).
+    rewrite (step_api s o Eo) in *. destruct (compile s o) as [[cmds ok] upd]. cbn [fst] in Hq'. subst cmds.
+    cbn [exec fst st] in *. unfold settled. split; [split; [exact Hs'|] | reflexivity].
+    cbn [st sbeof clear_log fsize al next exts ovf]. repeat split; auto.
 Qed.
 
 Lemma all_quiet_settled : forall h F E s, settled F E s -> all_quiet s h ->
@@ -352,8 +447,8 @@ Qed.
 Lemma closed_settled : forall s, st_ok s -> closed s = true -> ovf (st s) = false ->
   settled (fsize (st s)) (exts (st s)) s.
 Proof.
-  intros s Hs Hc Ho. pose proof (ok_fs _ Hs Ho). pose proof (ok_closed _ Hs Hc Ho). pose proof (ok_sb _ Hs Ho).
-  unfold settled. repeat split; auto; try lia. apply (ok_conf _ Hs).
+  intros s Hs Hc Ho. pose proof (ok_fs _ Hs Ho). pose proof (ok_closed _ Hs Hc Ho). pose proof (ok_sbeof _ Hs Hc).
+  unfold settled. split; [exact Hs|]. repeat split; auto; lia.
 Qed.
 
 Theorem noop_session : forall s h, st_ok s -> closed s = true -> ovf (st s) = false ->
@@ -364,8 +459,8 @@ Theorem noop_session : forall s h, st_ok s -> closed s = true -> ovf (st s) = fa
 Proof.
   intros s h Hs Hc Ho Hq s'.
   pose proof (closed_settled s Hs Hc Ho) as H0.
-  destruct (all_quiet_settled _ _ _ _ H0 Hq) as [(H1 & H2 & H3 & _) Hw].
-  fold s' in H1, H2, H3. destruct H0 as (_ & G2 & _). repeat split; auto. lia.
+  destruct (all_quiet_settled _ _ _ _ H0 Hq) as [(_ & H1 & H2 & H3 & _) Hw].
+  fold s' in H1, H2, H3. destruct H0 as (_ & _ & G2 & _). repeat split; auto. lia.
 Qed.
 
 (* reopen after close: allocator at or above every extent, so later allocations are disjoint from all of them *)
@@ -381,8 +476,8 @@ Proof.
   destruct (alloc_ext_spec _ _ _ _ _ _ Ha) as (_ & He & _).
   destruct (ok_ext _ Hs1 Hov1) as [HF _]. rewrite Forall_forall in HF.
   assert (Hin1 : In e' (exts (st s1))).
-  { unfold s1. cbn [step fst st do_close cleared closed]. destruct (closed s); cbn; [exact Hin|].
-    unfold close_store. destruct (c_extend_close (conf s)); cbn; exact Hin. }
+  { unfold s1. destruct (step_session_store s OpReopen eq_refl) as (Ex & _).
+    destruct (do_close_spec s Hs) as (Dx & _). rewrite Ex, Dx. exact Hin. }
   specialize (HF _ Hin1). right. subst e. cbn. exact HF.
 Qed.
 
